@@ -5,6 +5,7 @@ import (
 
 	"github.com/IrineSistiana/mosproxy/internal/dnsmsg"
 	domainmatcher "github.com/IrineSistiana/mosproxy/internal/domain_matcher"
+	"github.com/IrineSistiana/mosproxy/internal/upstream"
 	"github.com/IrineSistiana/mosproxy/internal/verifrt"
 )
 
@@ -188,4 +189,62 @@ func VerifH_C10_LoadRejects() {
 		return
 	}
 	verifrt.Assert(err != nil && r == nil, "a configuration with an unknown / repeated tag or a missing field is rejected at start-up, not silently ignored")
+}
+
+type vCfgUpstream struct {
+	vUpstream
+	addr, dialAddr string
+}
+
+// VerifH_C10_ConfiguredUpstreamReached: "that rule's upstream" is the server its tag was CONFIGURED with. Through the
+// real start-up path (run → initUpstream → rule loading) with upstream.NewUpstream replaced by a recording
+// constructor: two (thorough: three) upstream tags whose configurations may coincide in the address URL, in the
+// dial_addr override, in both or in neither; one forward rule naming any of the tags. The query must be exchanged,
+// exactly once, on a transport that was constructed from the configuration of exactly that tag (same URL and same
+// dial_addr), and on no other; closing the router closes every constructed transport.
+func VerifH_C10_ConfiguredUpstreamReached() {
+	verifrt.Unwind(400)
+	verifrt.CtxNoExpiry = true
+	var made []*vCfgUpstream
+	verifrt.Redirect("github.com/IrineSistiana/mosproxy/internal/upstream.NewUpstream", func(addr string, opt upstream.Opt) (upstream.Upstream, error) {
+		u := &vCfgUpstream{addr: addr, dialAddr: opt.DialAddr}
+		u.tag = "made"
+		made = append(made, u)
+		return u, nil
+	})
+	addrs := []string{"tls://dns.example", "udp://192.0.2.1"}
+	dials := []string{"", "198.51.100.1", "198.51.100.2:853"}
+	n := 2
+	if verifrt.Thorough() {
+		n = 3
+	}
+	cfg := &Config{}
+	tags := []string{"up_a", "up_b", "up_c"}
+	for i := 0; i < n; i++ {
+		cfg.Upstreams = append(cfg.Upstreams, UpstreamConfig{Tag: tags[i], Addr: addrs[verifrt.Choose("addr", 2)], DialAddr: dials[verifrt.Choose("dial", 3)]})
+	}
+	sel := verifrt.Choose("forward", n)
+	cfg.Rules = []RuleConfig{{Forward: tags[sel]}}
+	r, err := run(context.Background(), cfg)
+	verifrt.Assert(err == nil && r != nil, "the configuration starts")
+	q := dnsmsg.NewQuestion()
+	q.Name = dnsmsg.Name([]byte{1, 'q', 1, 't'})
+	q.Type, q.Class = 1, 1
+	rc := getRequestContext()
+	r.handleReq(context.Background(), q, rc)
+	verifrt.Reach("handled")
+	used := 0
+	for _, u := range made {
+		if u.calls > 0 {
+			used++
+			verifrt.Assert(u.calls == 1, "exactly one exchange")
+			verifrt.Assert(u.addr == cfg.Upstreams[sel].Addr && u.dialAddr == cfg.Upstreams[sel].DialAddr,
+				"the query goes to a transport built from the selected tag's own configuration (address and dial_addr)")
+		}
+	}
+	verifrt.Assert(used == 1, "and to no other upstream")
+	r.close(nil)
+	for _, u := range made {
+		verifrt.Assert(u.closed >= 1, "every constructed transport is closed by closing the router")
+	}
 }
